@@ -43,12 +43,12 @@ def _build(sim, eng, shape):
     return ref
 
 
-def _check(sim, eng, ref, stage):
+def _check(sim, eng, ref, stage, sig=None):
     hist = sim.db.history
     for i, exp in ref.items():
         got = list(hist.get_txnums(HX[i], limit=None))
         eng.prove(len(got) == len(exp) and z3_and([deep_eq(a, b) for a, b in zip(got, exp)]),
-                  f'{stage}: history of a script hash changed', {'signature': f'{stage}:changed', 'hashX': i})
+                  f'{stage}: history of a script hash changed', {'signature': sig or f'{stage}:changed', 'hashX': i})
     symx.observe(f'{stage}.lens', [len(list(hist.get_txnums(HX[i], limit=None))) for i in ref])
 
 
@@ -101,10 +101,14 @@ def scenario(shape):
         else:
             done = _tool_loop(sim, limit, max_batches=shape['stop_after'])
             _check(sim, eng, ref, 'stopped')
+            # the tool was killed right after its FINAL batch (before set_flush_count) and that batch raised the
+            # history flush count above the UTXO one (a script hash with more compacted rows than flushes)
+            raised = sim.db.history.comp_cursor == -1 and sim.db.history.flush_count > sim.db.state.flush_count
             if mode == 'resume':
                 hist = _reopen(sim, True)
                 hist.max_hist_row_entries = shape['row']
-                _check(sim, eng, ref, 'reopened-for-compacting')
+                _check(sim, eng, ref, 'reopened-for-compacting',
+                       'killed after the final batch before set_flush_count, flush count raised; reopened' if raised else None)
                 _tool_loop(sim, limit)
             elif mode == 'abandon':
                 pass
@@ -239,8 +243,10 @@ def shapes(tier):
         out.append({'row': 2, 'flushes': [(2, 1, 0), (2, 0, 1), (1, 1, 1)], 'mode': 'twice', 'serve': True})
     # more compacted rows than flushes (in scope for complete / resumed compactions: the flush count goes UP)
     out.append({'row': 2, 'flushes': [(7, 1, 0), (0, 1, 1)], 'mode': 'complete', 'sym_limit': tier != 'quick'})
+    # stopped / killed after the first batch and resumed on such a database (hits the recorded known finding when the
+    # batch limit lets the first batch be the final one)
+    out.append({'row': 2, 'flushes': [(7, 1, 0), (0, 1, 1)], 'mode': 'resume', 'stop_after': 1})
     if tier == 'thorough':
-        out.append({'row': 2, 'flushes': [(7, 1, 0), (0, 1, 1)], 'mode': 'resume', 'stop_after': 1})
         out.append({'row': 2, 'flushes': [(7, 0, 2)], 'mode': 'twice'})
         out.append({'row': 3, 'flushes': [(7, 7, 0), (4, 0, 1)], 'mode': 'complete', 'serve': True})
     for b in bases:
